@@ -98,7 +98,7 @@ int main(int argc, char** argv) {
     if (r < w_write) { op_write(); continue; } r -= w_write;
     if (r < w_query) { op_query(); continue; } r -= w_query;
     if (r < w_heap) { if (allow_heaps > 0) op_heap(); continue; } r -= w_heap;
-    if (r < w_visit) { op_collect(); op_visit(pick_heap_idx(), vf_randn(4) == 0 ? 1 + (int)vf_randn(5) : 0); continue; } r -= w_visit;
+    if (r < w_visit) { op_collect(); op_visit(pick_heap_idx(), vf_randn(4) == 0 ? 1 + (int)vf_randn(5) : (vf_randn(5) == 0 ? -(1 + (int)vf_randn(3)) : 0)); continue; } r -= w_visit;
     if (r < w_collect) { op_collect(); continue; } r -= w_collect;
     if (r < w_expand) { op_expand(); continue; } r -= w_expand;
     if (r < w_bad) { op_bad(); continue; } r -= w_bad;
